@@ -82,8 +82,25 @@ def run(model, col, tier):
     for name, (t, rel, node) in tables.items():
         col.check(t == oracles.SWIZZLE, "R04.1", name, "x/r=0, y/g=1, z/b=2, w/a=3", f"letter table is {t}", rel, node)
     cst = model.func(CT, "ComputeSwizzleType")
-    t = " ".join(unparse(cst).split())
-    col.check("outComponentCount = len(mask)" in t and "if outComponentCount == 1: return swizzleType" in t.replace("\n", " ") and "types.VectorType(swizzleType, outComponentCount)" in t, "R04.1",
+    from ..sem import local_env as _le41, rtext as _rt41
+
+    tp_, mp_ = (a.arg for a in cst.args.args[:2])
+    env41 = _le41(cst)
+    one = many = False
+    wrong41 = []
+    for evs_, st_ in paths(cst.body):
+        if st_ != "return":
+            continue
+        at_ = cond_atoms(evs_, env41)
+        single = at_.get(f"len({mp_}) == 1")
+        rt_ = _rt41(evs_[-1].node.value, env41)
+        if single is True and rt_ == f"{tp_}.GetComponentType()":
+            one = True
+        elif single is False and rt_.replace("types.", "") == f"VectorType({tp_}.GetComponentType(), len({mp_}))":
+            many = True
+        else:
+            wrong41.append(f"[{'one letter' if single else 'several letters' if single is False else 'unconditionally'}] -> {rt_}")
+    col.check(one and many and not wrong41, "R04.1",
               f"{CT}::ComputeSwizzleType", "one letter -> component type, n letters -> vector of n components", "the swizzle's type is not (component type | vector of len(mask))", CT, cst)
     # ---------------- R04.2 ------------------------------------------------------
     nread = nwrite = 0
@@ -215,10 +232,32 @@ def run(model, col, tier):
             good = unparse(g.iter) == first and isinstance(lc.elt, ast.BinOp) and type(lc.elt.op).__name__ == pyop and unparse(lc.elt.left) == unparse(g.target) and unparse(lc.elt.right) == second
         col.check(good, "R04.4", f"{VM}::__Execute {opc}", f"`{text}`", f"arm {opc} computes `{text}`; expected [v op scalar for v in vector] with the vector as first operand", VM, vm.arm(opc).case)
     mm = vm.ec.own_method("__MatrixMatrixMultiply")
-    s = " ".join(unparse(mm).split())
-    col.check("result[i][j] += m0[i][k] * m1[k][j]" in s and "for i in range(len(m0))" in s and "for j in range(len(m1[0]))" in s and "for k in range(len(m0[0]))" in s, "R04.4", f"{VM}::__MatrixMatrixMultiply",
+    # structural: three nested loops i over rows(A), j over columns(B), k over the inner dimension; acc[i][j] += A[i][k] * B[k][j]
+    shp, A_, B_ = (a.arg for a in mm.args.args[1:4])
+    prod_ok = False
+    for l1 in [n for n in mm.body if isinstance(n, ast.For)]:
+        l2 = next((n for n in l1.body if isinstance(n, ast.For)), None)
+        l3 = next((n for n in l2.body if isinstance(n, ast.For)), None) if l2 is not None else None
+        if l3 is None:
+            continue
+        i_, j_, k_ = unparse(l1.target), unparse(l2.target), unparse(l3.target)
+        rng_ok = unparse(l1.iter) == f"range(len({A_}))" and unparse(l2.iter) == f"range(len({B_}[0]))" and unparse(l3.iter) in (f"range(len({A_}[0]))", f"range(len({B_}))")
+        for st_ in l3.body:
+            if isinstance(st_, ast.AugAssign) and isinstance(st_.op, ast.Add):
+                tgt_, val_ = st_.target, st_.value
+            elif isinstance(st_, ast.Assign) and isinstance(st_.value, ast.BinOp) and isinstance(st_.value.op, ast.Add) and unparse(st_.value.left) == unparse(st_.targets[0]):
+                tgt_, val_ = st_.targets[0], st_.value.right
+            else:
+                continue
+            accn = unparse(tgt_).split("[")[0]
+            prod_ok = rng_ok and unparse(tgt_) == f"{accn}[{i_}][{j_}]" and " ".join(unparse(val_).split()) in (f"{A_}[{i_}][{k_}] * {B_}[{k_}][{j_}]", f"{B_}[{k_}][{j_}] * {A_}[{i_}][{k_}]")
+    col.check(prod_ok, "R04.4", f"{VM}::__MatrixMatrixMultiply",
               "result[i][j] = sum_k m0[i][k] * m1[k][j]", "the matrix product is not sum_k m0[i][k] * m1[k][j]", VM, mm)
-    col.check("[0 for _ in range(resultShape[1])] for _ in range(resultShape[0])" in s, "R04.4", f"{VM}::__MatrixMatrixMultiply result rows are distinct lists", "rows are built by a comprehension (no aliasing)", "result rows are aliased", VM, mm)
+    # the accumulator is a list of row lists each built by its own (inner) comprehension: [[0 for .. in range(cols)] for .. in range(rows)]
+    acc_init = [n.value for n in ast.walk(mm) if isinstance(n, ast.Assign) and isinstance(n.value, ast.ListComp) and isinstance(n.value.elt, ast.ListComp)]
+    rows_ok = bool(acc_init) and unparse(acc_init[0].generators[0].iter) == f"range({shp}[0])" and unparse(acc_init[0].elt.generators[0].iter) == f"range({shp}[1])" \
+        and isinstance(acc_init[0].elt.elt, ast.Constant) and acc_init[0].elt.elt.value == 0
+    col.check(rows_ok, "R04.4", f"{VM}::__MatrixMatrixMultiply result rows are distinct lists", "rows are built by a comprehension (no aliasing)", "result rows are aliased", VM, mm)
     # ---------------- R04.5 ------------------------------------------------------
     ops = model.enum_members("nsl/op.py", "Operation")
     comparisons = {n for n in ops if n.startswith("CMP_")}
